@@ -31,7 +31,7 @@ def main(mods, only=None):
             print(f"[OUT-OF-REACH] {info.name}: {r.out_of_reach}")
             continue
         discharge(r.obligations)
-        bad = [o for o in r.obligations if o.status != "discharged" and not (o.kind == "cover" and "requires" not in o.name and o.status == "refuted")]
+        bad = [o for o in r.obligations if o.status != "discharged" and not (o.kind == "cover" and "requires" not in o.name)]
         print(f"[{'OK' if not bad else 'FAIL'}] {info.name}: {len(r.obligations)} obligations, {r.paths} paths, gen {r.gen_time:.2f}s")
         for o in r.obligations:
             if o.status != "discharged" or "-v" in sys.argv:
